@@ -17,6 +17,10 @@ CHECKS = {
          "attackers are identified by source address; copies of genuine traffic are presented only after the server has answered the original (otherwise the copy is the original)"),
  "C06": ("exploration", "§3 C06", "Replayer actors re-send recorded genuine TCP streams / prefixes / first segments and UDP datagrams from other addresses 0 s - 5 min later, before/after the original ended, concurrently with fresh dials, with the replay caches rebased onto the virtual clock; zero-reply / no-Accept / no-session oracle. Second scenario: ReplayCache operation histories under the virtual clock against an ideal bounded-memory set.",
          "replays are byte-exact; the cache model mirrors only the documented capacity/interval contract"),
+ "C08": ("exploration", "§3 C08", "A reference peer with an explicit, skewed and jumping clock talks to a real endpoint in both roles and on both transports: accept grid |d| <= 60 s (minus flight time) around key-slot changes and minute ticks must handshake and echo; refuse grid (timestamp >= 2 min off, key >= 4 min off, both) must get nothing. Key-cache lookup histories with non-monotonic instants are checked against the reference derivation (exactly the three candidate slots, never another).",
+         "the skewed party is always the reference peer; refproto is the trusted base; hook H3 exposes the cache's explicit-time entry points"),
+ "C09": ("exploration", "§3 C09", "Direction 1: every segment emitted by real endpoints in C01/C02/C03-style runs must decode with the independent reference codec. Direction 2: reference client vs real server and real client vs reference server, using every documented freedom (padding 0..255, all low-entropy modes/rotations/padding bits, maximal payloads, piggy-backed open payload up to 1024, ack-only segments); the application must get exactly the bytes.",
+         "refproto shares no code with /repo and was written from docs/protocol.md only; loss-free link for the UDP reference peers"),
  "C10": ("exploration", "§3 C10", "A hostile peer with a valid credential emits reference-encoded segments with arbitrary types, session ids (incl. other users' established sessions), sequence/ack/window/length/low-entropy fields on both transports, mixed with the unauthenticated corpus, while another user's sessions run. Oracle: the worker process survives (panic/fatal = violation with the first mieru frame as signature) and the victim's stream oracle holds.",
          "one OS process per run makes a crash observable and attributable to a seed; hostile servers against real clients are not simulated"),
  "C19": ("exploration", "§3 C19", "Counter operation histories (adds in bursts, sleeps from 1 us to 30 days across every roll-up age, loads, windows, dump/restart/load with intact and torn files) against a list-of-increments model under the virtual clock; and whole-system quota runs where a user crosses its allowance and then opens new sessions next to other users: per-user counters equal what the server application read/wrote, over-quota sessions are refused with the quota status and never reach Server.Accept, everyone else is served.",
